@@ -149,6 +149,14 @@ Section C04.
     unfold forced_key. intros H. repeat (apply orb_true_iff in H as [H|H]); apply beqb_eq in H; subst k; vm_compute; reflexivity.
   Qed.
 
+  Lemma forced_not_url k : forced_key k = true ->
+    beqb k (B"href") = false /\ beqb k (B"cite") = false /\ beqb k (B"src") = false.
+  Proof.
+    unfold forced_key. intros H.
+    apply orb_true_iff in H as [H|H]; [apply orb_true_iff in H as [H|H]; [apply orb_true_iff in H as [H|H]|]|];
+      apply beqb_eq in H; subst k; vm_compute; auto.
+  Qed.
+
   (* one attribute of one kept UGC tag *)
   Lemma ugc_attr n a aps kv : lookup n (elsAndAttrs ugc) = Some aps -> In kv (clean_attrs I ugc n a aps) ->
     ugc_attr_documented n (fst kv) /\ event_or_style_attr (fst kv) = false /\
@@ -159,12 +167,11 @@ Section C04.
     intros Hl Hin. unfold clean_attrs in Hin. destruct a as [|a0 a']; [contradiction|].
     destruct (sanitize_attrs_justified I ugc n _ aps kv Hin) as [Hf|(x0 & x1 & _ & Hj & Hr)].
     - split; [left; exact Hf|]. split; [apply forced_not_event; exact Hf|].
-      intros Hu. exfalso. unfold url_checked in Hu. unfold url_attr_of in Hu.
-      destruct (linkable n && requireParseableURLs ugc); [|discriminate]. cbn [andb] in Hu.
-      unfold forced_key in Hf. unfold key_is in Hu.
-      repeat (apply orb_true_iff in Hf as [Hf|Hf]); apply beqb_eq in Hf; rewrite Hf in Hu;
-        destruct (mem n href_elements); try discriminate; destruct (mem n cite_elements); try discriminate;
-        destruct (mem n src_elements); discriminate.
+      intros Hu. exfalso. destruct (forced_not_url _ Hf) as (N1 & N2 & N3).
+      unfold url_checked, url_attr_of, key_is in Hu.
+      destruct (linkable n && requireParseableURLs ugc); [|discriminate Hu]. cbn [andb] in Hu.
+      destruct (mem n href_elements); [congruence|]. destruct (mem n cite_elements); [congruence|].
+      destruct (mem n src_elements); [congruence | discriminate Hu].
     - destruct ugc_no_styles_no_data as (_ & _ & _ & Ed).
       assert (Hkey : akey kv = akey x1).
       { destruct Hr as [[-> _]|(_ & _ & _ & k & u & _ & _ & _ & ->)]; reflexivity. }
@@ -187,7 +194,7 @@ Section C04.
           assert (Hne : c :: sc <> []) by discriminate. specialize (Hsc Hne). unfold scheme_ok in Hsc. rewrite Es in Hsc.
           destruct (lookup (c :: sc) (allowURLSchemes ugc)) eqn:Elk.
           -- unfold subset in Hsch. rewrite forallb_forall in Hsch. apply Hsch. apply mem_In. apply has_key_mem.
-             eapply lookup_has_key; eauto.
+             exact (lookup_has_key _ _ _ Elk).
           -- rewrite Hre in Hsc. discriminate.
   Qed.
 
